@@ -31,10 +31,15 @@ fn main() {
             }
             let mut w = World::new(&id, &cfg);
             for op in ops {
+                if w.dead {
+                    writeln!(out, "{op} => {{\"ret\":\"dead\",\"cmds\":[],\"chg\":[]}}").unwrap();
+                    continue;
+                }
                 let obs = w.exec(&op);
                 writeln!(out, "{op} => {obs}").unwrap();
             }
             out.flush().unwrap();
+            if w.dead { std::mem::forget(w); }
         }
     } else {
         let mut rng = Rng::new(args.seed);
@@ -52,14 +57,17 @@ fn main() {
             let mut g = Gen { r, thorough: args.tier == "thorough", len: args.len, step: 0, flips: vec![], nkeys: 0, nmsg: 0, nflip: 0 };
             let setup = if profile == "cms" { g.setup_cms() } else { g.setup_ta() };
             for op in setup {
+                if w.dead { break; }
                 let obs = w.exec(&op);
                 writeln!(out, "{op} => {obs}").unwrap();
             }
-            while let Some(op) = if profile == "cms" { g.next_cms(&w) } else { g.next_ta(&w) } {
+            while !w.dead {
+                let Some(op) = (if profile == "cms" { g.next_cms(&w) } else { g.next_ta(&w) }) else { break };
                 let obs = w.exec(&op);
                 writeln!(out, "{op} => {obs}").unwrap();
             }
             out.flush().unwrap();
+            if w.dead { std::mem::forget(w); }
         }
     }
     out.flush().unwrap();
@@ -180,7 +188,7 @@ impl Gen {
                 match c {
                     0..=13 => Some("getreq".into()),
                     14..=35 if have_req => self.pick_slot(w, true).map(|s| {
-                        let ovr = if self.r.chance(1, 10) { " ovr=500" } else { "" };
+                        let ovr = if self.r.chance(1, 10) { format!(" ovr={}", 1000 + self.step * 50) } else { String::new() };
                         format!("sign A R{s}{ovr}")
                     }),
                     36..=57 if have_resp => self.pick_slot(w, false).map(|s| format!("resp P{s}")),
